@@ -103,8 +103,13 @@ func parseConf(t reflect.Type, data interface{}) (name string, fillConf func(con
 }
 
 func toStringKeyMap(data interface{}) (out map[string]interface{}, err error) {
-	out, ok := data.(map[string]interface{})
-	if ok {
+	if strKeyData, ok := data.(map[string]interface{}); ok {
+		// parseConf removes the plugin type key from the result, and the same data can be decoded
+		// more than once (a plugin factory fills its config at every call): never modify the input.
+		out = make(map[string]interface{}, len(strKeyData))
+		for key, val := range strKeyData {
+			out[key] = val
+		}
 		return
 	}
 	untypedKeyData, ok := data.(map[interface{}]interface{})
